@@ -34,8 +34,76 @@ Check C16_excess_missing_deser_value :
     | None => Reject
     end /\
   gen_deser_value_by_name d db cells <> Err EPanic.
+Check C16_by_name_ser_row :
+  forall d cols, rdesc_wf d = true ->
+  Permutation (map fst cols) (map rl_name (rd_leaves d)) ->
+  (forall c l, In c cols -> lfind (fst c) (rd_leaves d) = Some l -> accepts (rl_ty l) (snd c) = true) ->
+  gen_ser_row_by_name d cols = Ok (map (fun c => rvalue_of (rd_leaves d) (fst c)) cols).
+Check C16_roundtrip_row :
+  forall d ls cols cells, rdesc_wf d = true ->
+  leaves_only (rd_fields d) = Some ls ->
+  forallb (fun l => val_ok (rl_ty l) (rl_val l)) ls = true ->
+  gen_ser_row_by_name d cols = Ok cells -> gen_typeck_row_by_name ls cols = Ok tt ->
+  gen_deser_row_by_name ls cols cells = Ok (map rback_value ls).
+Check C16_excess_missing_ser_row :
+  forall d cols, rdesc_wf d = true ->
+  outcome_of (gen_ser_row_by_name d cols) = doc_ser_row_by_name d cols /\
+  gen_ser_row_by_name d cols <> Err EPanic.
+Check C16_excess_missing_typeck_row :
+  forall ls cols,
+  NoDup (map rl_name (filter (fun f => negb (rl_skip f)) ls)) ->
+  (gen_typeck_row_by_name ls cols = Ok tt <-> doc_typeck_row_by_name ls cols = true) /\
+  gen_typeck_row_by_name ls cols <> Err EPanic.
+Check C16_excess_missing_deser_row :
+  forall ls cols cells,
+  NoDup (map rl_name (filter (fun f => negb (rl_skip f)) ls)) ->
+  List.length cells = List.length cols ->
+  doc_typeck_row_by_name ls cols = true ->
+  outcome_of (gen_deser_row_by_name ls cols cells) =
+    match all_some (map (fun f => doc_row_field_value f (combine cols cells)) ls) with
+    | Some vs => Accept vs
+    | None => Reject
+    end /\
+  gen_deser_row_by_name ls cols cells <> Err EPanic.
+Check C16_ordered_typeck_value :
+  forall d db, vordered_plain d = true ->
+  (gen_typeck_value_ordered d db = Ok tt <->
+   exists p rest, db = p ++ rest /\ map fst p = map vf_name (nonskipped (vd_fields d)) /\
+                  (vd_forbid d = true -> rest = []) /\
+                  forallb acc_pair (combine (nonskipped (vd_fields d)) p) = true).
+Check C16_ordered_ser_value :
+  forall d db, vordered_plain d = true ->
+  outcome_of (gen_ser_value_ordered d db) = doc_ser_value_ordered d db.
+Check C16_ordered_typeck_row :
+  forall ls cols,
+  (gen_typeck_row_ordered false ls cols = Ok tt <->
+   map fst cols = map rl_name (filter (fun f => negb (rl_skip f)) ls) /\
+   forallb racc_pair (combine (filter (fun f => negb (rl_skip f)) ls) cols) = true).
+Check C16_ordered_ser_row :
+  forall d cols, rordered_plain d = true ->
+  outcome_of (gen_ser_row_ordered d cols) = doc_ser_row_ordered d cols.
+Check C16_roundtrip_ordered_value :
+  forall d db cells, vvals_ok d = true ->
+  gen_ser_value_ordered d db = Ok cells ->
+  exists xs, gen_deser_value_ordered d db cells = Ok xs /\ Forall2 rt_ok (vd_fields d) xs.
+Check C16_roundtrip_ordered_row :
+  forall d ls cols cells, leaves_only (rd_fields d) = Some ls ->
+  forallb (fun l => val_ok (rl_ty l) (rl_val l)) ls = true ->
+  gen_ser_row_ordered d cols = Ok cells ->
+  gen_deser_row_ordered (rd_snc d) ls cols cells = Ok (map rback_value ls).
 Print Assumptions C16_by_name_ser.
 Print Assumptions C16_roundtrip.
 Print Assumptions C16_excess_missing_ser_value.
 Print Assumptions C16_excess_missing_typeck_value.
 Print Assumptions C16_excess_missing_deser_value.
+Print Assumptions C16_by_name_ser_row.
+Print Assumptions C16_roundtrip_row.
+Print Assumptions C16_excess_missing_ser_row.
+Print Assumptions C16_excess_missing_typeck_row.
+Print Assumptions C16_excess_missing_deser_row.
+Print Assumptions C16_ordered_typeck_value.
+Print Assumptions C16_ordered_ser_value.
+Print Assumptions C16_ordered_typeck_row.
+Print Assumptions C16_ordered_ser_row.
+Print Assumptions C16_roundtrip_ordered_value.
+Print Assumptions C16_roundtrip_ordered_row.
